@@ -156,6 +156,10 @@ def run(ctx):
                 ctx.violation({'value': v, 'json': jm}, 'no_color output contains an escape character')
                 continue
             lines = '\n'.join(ln.plain_text() for ln in printers[jm](v, no_color=True))
+            if lines == text:
+                # all lines collected first, turned into text afterwards
+                collected = list(printers[jm](v, no_color=True))
+                lines = '\n'.join(ln.plain_text() for ln in collected)
             if lines != text:
                 ctx.violation({'value': v, 'json': jm}, 'line iteration gives different text than the whole result')
                 continue
@@ -221,6 +225,9 @@ def replay(ctx, case):
         return 'no_color output contains an escape character'
     text = PrettyPrinter(fmt_json=jm)(v, no_color=True).plain_text()
     lines = '\n'.join(ln.plain_text() for ln in PrettyPrinter(fmt_json=jm)(v, no_color=True))
+    if lines == text:
+        collected = list(PrettyPrinter(fmt_json=jm)(v, no_color=True))
+        lines = '\n'.join(ln.plain_text() for ln in collected)
     if lines != text:
         return 'line iteration differs'
     items, err = lex(text, jm)
